@@ -18,6 +18,12 @@ func VerifH02e() {
 	queryLB := sym.Int64("queryLookback", 0, verifR) // 0 = not given
 	variant := sym.Choice("modifier", 3)             // 0 plain, 1 offset 1m, 2 @ 100 (seconds)
 	qs := []string{`foo`, `foo offset 1m`, `foo @ 100`}[variant]
+	// merged: the same metric is selected a second time with fewer matchers, so that the
+	// default optimizers turn the modified selector into a filtered view of a shared select
+	merged := sym.Choice("merged", 2) == 1
+	if merged {
+		qs = []string{`foo{a="x"}`, `foo{a="x"} offset 1m`, `foo{a="x"} @ 100`}[variant] + ` + on(a) foo`
+	}
 	ts := sym.Int64("ts", 0, verifR)
 	st := sym.Int64("sampleT", -verifR, verifR)
 	v := sym.Float64("v")
@@ -49,10 +55,17 @@ func VerifH02e() {
 	}
 	lb := sym.IteI(queryLB > 0, queryLB, engineLB)
 	want := sym.And(st <= ref, ref-st <= lb)
+	if merged { // the unmodified right-hand selector must select the sample as well
+		want = sym.And(want, st <= ts, ts-st <= lb)
+	}
 	sym.Known("KF-C02-D1", sym.And(queryLB > 0, queryLB != engineLB))
 	sym.Assert("C02/lookback/present-iff-within-effective-lookback", sym.Iff(len(vec) == 1, want))
 	if len(vec) == 1 {
-		sym.Assert("C02/lookback/value", sym.SameF(vec[0].V, v) && vec[0].T == ts)
+		if merged {
+			sym.Assert("C02/lookback/value", sym.SameF(vec[0].V, v+v) && vec[0].T == ts)
+		} else {
+			sym.Assert("C02/lookback/value", sym.SameF(vec[0].V, v) && vec[0].T == ts)
+		}
 	}
 	sym.Reached("C02/lookback/end")
 }
